@@ -119,9 +119,9 @@ def fuse_facts(name, otarget, orig_out, got):
     """Input-side features of the target (for classifiers)."""
     if name in ("swap", "tile"):
         return nest_facts(otarget)
-    if name == "hoist":
+    if name in ("hoist", "replace"):
         from psyclone.psyir.nodes import CodeBlock, Loop, Return
-        loop = otarget.ancestor(Loop)
+        loop = otarget.ancestor(Loop) if name == "hoist" else otarget
         return {"early_exit_in_loop": bool(
             loop is not None and loop.walk((CodeBlock, Return)))}
     if name != "fuse":
@@ -189,6 +189,14 @@ def nest_facts(outer):
         if isinstance(par, Assignment) and par.lhs is ref:
             written.setdefault(ref.symbol.name.lower(), set()).add(txt)
     facts["self_dependence"] = any(len(used[a]) > 1 for a in written)
+    # a bound/step expression of the nest reads a scalar the body assigns
+    assigned = {asg.lhs.symbol.name.lower() for asg in outer.walk(Assignment)
+                if type(asg.lhs) is Reference}
+    in_bounds = set()
+    for loop in [outer] + ([inner] if inner is not None else []):
+        for expr in (loop.start_expr, loop.stop_expr, loop.step_expr):
+            in_bounds |= {r.symbol.name.lower() for r in expr.walk(Reference)}
+    facts["bounds_assigned_in_body"] = sorted(assigned & in_bounds)
     return facts
 
 
@@ -218,9 +226,18 @@ CLASSIFIERS = {
     # relies on it)
     "swap_self_dependence": lambda c: (_is(c, "swap") or _is(c, "tile")) and
     bool(c.get("facts", {}).get("self_dependence")),
+    # ... nor does it check that the bounds of the two loops are invariant
+    # in the nest: an inner bound reads a scalar that the body assigns
+    "swap_bounds_assigned_in_body": lambda c: (_is(c, "swap") or
+                                               _is(c, "tile")) and
+    bool(c.get("facts", {}).get("bounds_assigned_in_body")),
     # HoistTrans moves an assignment out of a loop whose body can CYCLE /
     # EXIT / RETURN before reaching it
     "hoist_past_early_exit": lambda c: _is(c, "hoist") and
+    bool(c.get("facts", {}).get("early_exit_in_loop")),
+    # ReplaceInductionVariablesTrans re-creates 'v = f(loop variable)' after
+    # the loop although the body can CYCLE / EXIT / RETURN before reaching it
+    "replace_past_early_exit": lambda c: _is(c, "replace") and
     bool(c.get("facts", {}).get("early_exit_in_loop")),
     # an array written in one of the fused loops is accessed in both loops
     # through different subscripts (no dependence-distance check)
